@@ -22,7 +22,9 @@ ASSUMPTIONS = [
     "removePluginByName is not called with the sentinel's own name \"null\" (see report: that unlinks the sentinel)",
     "plugin names pairwise different for the remove-exactly claim (with duplicates up to three plugins go; modelled, not claimed)",
 ]
-RULE = ("52 pointers of four types (void*, function pointer, double*, int**) through the same macro; tests also run in a "
+RULE = ("stream midrun: 2-6 queued tests run by ONE TestRegistry::runAllTests, a test installing / removing (head, last, any) a "
+        "plugin on the running registry from its body or from a recording plugin's post action, logs of every test of the run "
+        "judged against what is installed when that test starts; 52 pointers of four types (void*, function pointer, double*, int**) through the same macro; tests also run in a "
         "separate process, as IgnoredUtestShell and run-ignored; plugins that report a failure from their pre action; "
         "countPlugins/getFirstPlugin/getPluginByName (also by the sentinel's name) observed after every chain operation; "
         "chains of 0-8 recording plugins + the real SetPointerPlugin at a random position, random enable patterns, "
@@ -122,7 +124,7 @@ def gen_case(rng, ntests, with_set=True, dup=False, malformed=False):
                                        ["remove SetPointerPlugin", "newset", "install set"], ["newset", "install set"]]))
         ops.extend(gen_test(rng))
     if malformed:
-        junk = ["install 3", "install 3", "install set", "remove null", "run bogus", "newset", "disable 100", "enable 99", "set 99 1", "set 1 99", "set 1", "run",
+        junk = ["install 3", "install 3", "install set", "remove null", "run bogus", "runall", "test pass i3 -", "test pass rnull -", "test fail - 9:x", "newset", "disable 100", "enable 99", "set 99 1", "set 1 99", "set 1", "run",
                 "frob", "enable 77", "install", "get", "remove", "run pass"]
         for _ in range(rng.randint(1, 4)):
             ops.insert(rng.randint(0, len(ops)), rng.choice(junk))
@@ -170,6 +172,63 @@ def gen_setlife(rng):
     return ops
 
 
+def gen_batch(rng):
+    """several tests through ONE TestRegistry::runAllTests; tests install / remove plugins on the running registry,
+    from the body or from the post action of an installed recording plugin; every plugin installed or removed in
+    test k is looked for in the logs of tests k+1.."""
+    ops = []
+    installed = []                       # rec ids, most recently installed first (a hint: overflowing tests skip their change)
+    has_set = rng.random() < 0.8
+    for r in rng.sample(range(8), rng.randint(0, 4)):
+        ops.append("install %d" % r)
+        installed.insert(0, r)
+        if rng.random() < 0.15:
+            ops.append("disable %d" % r)
+    if has_set:
+        ops.insert(rng.randint(0, len(ops)), "install set")
+    for rep in range(rng.randint(1, 2)):
+        ntests = rng.randint(2, 6)
+        for k in range(ntests):
+            nsets = rng.choice([0, 1, 2, 2, 5, 33 if rng.random() < 0.1 else 3])
+            pool = rng.sample(range(52), 3)
+            for _ in range(nsets):
+                ops.append("set %d %d" % (rng.choice(pool), rng.randrange(64)))
+            bm, pm = "-", "-"
+            before = list(installed)          # only these see this test's post action
+            x = rng.random()
+            free = [q for q in range(8) if q not in installed]
+            if x < 0.35 and free:
+                r = rng.choice(free)
+                bm = "i%d" % r
+                if nsets <= 32:
+                    installed.insert(0, r)
+            elif x < 0.6 and installed:
+                # the head, the last one, or any
+                r = rng.choice([installed[0], installed[-1], rng.choice(installed)])
+                bm = "rp%d" % r
+                if nsets <= 32:
+                    installed.remove(r)
+            elif x < 0.65 and has_set:
+                bm = "rSetPointerPlugin"
+            y = rng.random()
+            free = [q for q in range(8) if q not in installed]
+            if y < 0.2 and before:
+                actor = rng.choice(before)
+                if rng.random() < 0.5 and free:
+                    r = rng.choice(free)
+                    pm = "%d:i%d" % (actor, r)
+                    installed.insert(0, r)
+                elif installed:
+                    r = rng.choice(installed)
+                    pm = "%d:rp%d" % (actor, r)
+                    installed.remove(r)
+            ops.append("test %s %s %s" % (rng.choice(OUTCOMES), bm, pm))
+        ops.append("runall")
+        if rng.random() < 0.5:
+            ops.extend(small_test(rng, rng.sample(range(52), 2)))
+    return ops
+
+
 def generate(rng, tier):
     quick = tier == "quick"
     n = 1500 if quick else 8000
@@ -180,6 +239,8 @@ def generate(rng, tier):
         out.append(("noset", gen_case(rng, rng.randint(1, 8), with_set=False)))
     for i in range(n // 3):
         out.append(("setlife", gen_setlife(rng)))
+    for i in range(n // 3):
+        out.append(("midrun", gen_batch(rng)))
     for i in range(n // 8):
         out.append(("dupnames", gen_case(rng, rng.randint(1, 4), dup=True)))
     for i in range(n // 10):
@@ -225,6 +286,14 @@ def observe(r, rep):
             if len(locs) > 32:
                 rep.count("branch.more_than_limit")
             locs = []
+        elif l.startswith("> test "):
+            w = l.split()
+            if w[3] != "-":
+                rep.count("branch.midrun_body_" + ("install" if w[3][0] == "i" else "remove"))
+            if w[4] != "-":
+                rep.count("branch.midrun_postaction_change")
+        elif l == "> runall":
+            rep.count("branch.runall")
         elif l.startswith("> install ") and l.endswith("failpre"):
             rep.count("branch.failing_pre_plugin_installed")
         elif l.startswith("got sentinel"):
